@@ -74,6 +74,9 @@ var units = []unit{
 		{"src/coin", "", "VerifyTransactionCoinsSpending"},
 		{"src/coin", "", "VerifyTransactionHoursSpending"},
 	}},
+	{File: "CoinTruncate", Imports: []string{"Mathutil"}, Fns: []fnSpec{
+		{"src/coin", "Transactions", "TruncateBytesTo"},
+	}},
 	{File: "FeeTxn", Imports: []string{"Mathutil", "Fee", "CoinHours", "CoinLoops"}, Fns: []fnSpec{
 		{"src/util/fee", "", "VerifyTransactionFee"},
 		{"src/util/fee", "", "TransactionFee"},
@@ -129,6 +132,7 @@ type tr struct {
 	fnName       string
 	nloops       int
 	loopMemo     map[*ast.RangeStmt]loopMemo
+	opaque       map[string]bool       // methods on loop elements whose results are data (opaqueMethods)
 	proj         map[string][][]string // second pass: element projection of each slice
 }
 
@@ -501,6 +505,13 @@ func (t *tr) binary(x *ast.BinaryExpr) ex {
 	return ex{}
 }
 
+func resTyAt(tys []types.Type, i int) types.Type {
+	if i < len(tys) {
+		return tys[i]
+	}
+	return nil
+}
+
 func isNil(e ast.Expr) bool {
 	id, ok := e.(*ast.Ident)
 	return ok && id.Name == "nil"
@@ -559,6 +570,9 @@ func (t *tr) call(c *ast.CallExpr) ex {
 	key := fnKey(fn)
 	name, ok := t.known[key]
 	if !ok {
+		if r, ok := t.opaqueCall(c, fn); ok {
+			return r
+		}
 		fail(t.fset, c, "call to untranslated function %s", full)
 	}
 	args := []string{}
@@ -740,7 +754,9 @@ func (t *tr) stmts(list []ast.Stmt, rest string) string {
 		pre, post := "", ""
 		for i, r := range x.Results {
 			var v ex
-			if isNil(r) {
+			if _, isSl := sliceOfStruct(resTyAt(t.resTy, i)); isSl {
+				v = t.sliceValue(r)
+			} else if isNil(r) {
 				v = pure("None")
 			} else {
 				v = t.expr(r)
@@ -1248,7 +1264,7 @@ func main() {
 				fmt.Fprintf(os.Stderr, "TRANSLATION-BREAK: function %s.%s.%s not found\n", f.Pkg, f.Recv, f.Name)
 				os.Exit(3)
 			}
-			t := &tr{fset: p.Fset, pkg: p, info: p.TypesInfo, known: known, finfo: finfo}
+			t := &tr{fset: p.Fset, pkg: p, info: p.TypesInfo, known: known, finfo: finfo, opaque: opaqueMethods[f.Pkg+"."+f.Recv+"."+f.Name]}
 			coqName := f.Name
 			if f.Recv != "" {
 				coqName = f.Recv + "_" + f.Name
